@@ -325,6 +325,9 @@ def run_batch(prop, tier, seed):
             "distinct_memo_states": len(agg["states"]),
             "logical_time_events": agg["events"],
             "runs_per_hour": int(agg["n"] / max(wall, 1e-9) * 3600),
+            "seeds_per_hour": int(agg["n"] / max(wall, 1e-9) * 3600),
+            "seed_note": "every run index has its own sub-seed sha256(VERIF_SEED/property/run index/purpose); one run = one seed = one exactly repeatable execution",
+            "simulated_time_note": "there is no clock in the system under test; simulated time is logical time = number of recorded events (client operations, callback invocations, injected faults, returns)",
             "counters": counters,
             "probes_at_zero": zero_probes,
             "timeouts": agg["timeouts"],
